@@ -1,3 +1,4 @@
 pub mod trace;
 pub mod cli;
+pub mod mock;
 pub mod modrec;
